@@ -121,7 +121,7 @@ def cases(tier, seed):
         if rng.random() < 0.2:
             opts["force_poll_mesh"] = True
         cons = str(rng.choice(["none", "ball", "halfspace", "corner", "band"], p=[0.6, 0.1, 0.1, 0.1, 0.1]))
-        spec = gen.make_spec(rng, D=D, geom=str(rng.choice(["lin", "tight", "log", "unb", "offcentre", "mixedlog"], p=[0.2, 0.3, 0.15, 0.1, 0.15, 0.1])),
+        spec = gen.make_spec(rng, D=D, geom=str(rng.choice(["lin", "tight", "log", "unb", "offcentre", "mixedlog", "mixedunb"], p=[0.2, 0.25, 0.1, 0.1, 0.1, 0.1, 0.15])),
                              x0mode=("in" if cons != "none" else str(rng.choice(["in", "onlb", "onub", "none"]))),
                              land=str(rng.choice(["quad", "sphere", "l1", "ramp", "rosen", "stair"])),
                              where=str(rng.choice(["in", "onb", "out"], p=[0.25, 0.4, 0.35])),
